@@ -31,6 +31,6 @@ def run(ctx):
     M.run_sync(ctx, {
         "which": "rw", "what": "read()/write()/unlock", "cases": rw_cases, "trykind": "try", "tail": 80,
         "spin_key": "rwlock_spin", "infer_spin": M.infer_spin_rw, "obs_module": "RwObs", "table": "rwlock",
-        "lock_locs": ["state", "writer_notify"], "module": "TinyVerif.Props.C02", "driver": "drv_c02",
+        "module": "TinyVerif.Props.C02", "driver": "drv_c02",
         "more_props": ["TinyVerif.Props.C02Live"], "corr": "rwlock-trace",
     })
